@@ -554,6 +554,11 @@ class SymEngine:
                 return C(same if sym == "is" else not same)
             if sym in ("==", "!=") and type(a) is type(b) and isinstance(a, (int, bytes, str, bool, type(None))):
                 return C((a == b) if sym == "==" else (a != b))
+        if sym in ("is", "isnot") and r == C(None) and not is_c(l):
+            # an integer (a length, arithmetic, the counter of enumerate(..)) is never None
+            enum_idx = l[0] == "sub" and l[2] == C(0) and l[1][0] == "iter" and l[1][1][0] == "call" and l[1][1][1] == "ext:enumerate"
+            if enum_idx or (_intlike(l) and l[0] != "c"):
+                return C(sym == "isnot")
         # normalise: constant on the right for symmetric ops, flip for ordered ones
         if is_c(l) and not is_c(r):
             flip = {"==": "==", "!=": "!=", "<": ">", "<=": ">=", ">": "<", ">=": "<=", "is": "is", "isnot": "isnot"}
@@ -675,6 +680,13 @@ class SymEngine:
                 el = ("iter", args[1], "c")
                 head = ("call", "ctor:" + args[0][1], (el,), ()) if args[0][0] == "cls" else ("call", args[0][1], (el,), ())
                 return ("gen", head, (args[1],), ())
+            if tg.name == "map" and len(args) == 3 and not kws and args[0][0] == "attr" and args[0][1] == ("ext", "operator") \
+                    and args[0][2] in ("eq", "ne", "lt", "le", "gt", "ge"):
+                # map(operator.eq, xs, ys) is (x == y for x, y in zip(xs, ys))
+                z = ("call", "ext:zip", (args[1], args[2]), ())
+                el = ("iter", z, "c")
+                op = {"eq": "Eq", "ne": "NotEq", "lt": "Lt", "le": "LtE", "gt": "Gt", "ge": "GtE"}[args[0][2]]
+                return ("gen", self._cmp(getattr(ast, op)(), ("sub", el, C(0)), ("sub", el, C(1))), (z,), ())
             if tg.name == "list" and len(args) == 1 and not kws and args[0][0] == "gen":
                 return ("listcomp",) + args[0][1:]  # list(<generator expression>) is the list comprehension
             return ("call", "ext:" + tg.name, args, kws)
